@@ -4,3 +4,9 @@
 pub mod stubs;
 #[cfg(kani)]
 mod c05;
+#[cfg(kani)]
+mod c09;
+
+#[cfg(kani)]
+#[kani::proof]
+fn warmup_noop() {}
